@@ -760,8 +760,8 @@ def PkgGood (L : Lib) (kind : OpKind) (p : PkgReq) (o : PkgOut) : Prop :=
       (kind = .build → FilesRecorded L e.files ∧
         ∀ nd ∈ o.nodes, nd.isLink = false → served e.files nd = some nd.own ∧ L.sha1 nd.own = nd.sum)
 
-theorem runPkg_store (cfg : Cfg) (L : Lib) (kind : OpKind) (uc : Bool) (s : State) (p : PkgReq)
-    (hinv : StoreInv L s.store) : StoreInv L (runPkg cfg L kind uc s p).2.store := by
+theorem runPkg_store (cfg : Cfg) (L : Lib) (kind : OpKind) (uc : Bool) (prev : List (List Entry)) (s : State)
+    (p : PkgReq) (hinv : StoreInv L s.store) : StoreInv L (runPkg cfg L kind uc prev s p).2.store := by
   have := expandVia_store cfg.verify cfg.checkMemo L uc s p hinv
   unfold runPkg
   split
@@ -770,11 +770,14 @@ theorem runPkg_store (cfg : Cfg) (L : Lib) (kind : OpKind) (uc : Bool) (s : Stat
     rw [hv] at this
     split
     · exact this
-    · split <;> exact this
+    · split
+      · exact this
+      · split <;> exact this
 
-theorem runPkg_spec (L : Lib) (hx : HexCanonical L) (kind : OpKind) (uc : Bool) (s : State) (p : PkgReq)
-    (hinv : StateInv L s) :
-    StateInv L (runPkg Cfg.repaired L kind uc s p).2 ∧ PkgGood L kind p (runPkg Cfg.repaired L kind uc s p).1 := by
+theorem runPkg_spec (L : Lib) (hx : HexCanonical L) (kind : OpKind) (uc : Bool) (prev : List (List Entry)) (s : State)
+    (p : PkgReq) (hinv : StateInv L s) :
+    StateInv L (runPkg Cfg.repaired L kind uc prev s p).2 ∧
+    PkgGood L kind p (runPkg Cfg.repaired L kind uc prev s p).1 := by
   obtain ⟨h1, h2⟩ := expandVia_spec L hx uc s p hinv
   unfold runPkg
   simp only [Cfg.repaired]
@@ -790,21 +793,23 @@ theorem runPkg_spec (L : Lib) (hx : HexCanonical L) (kind : OpKind) (uc : Bool) 
     · split
       · exact ⟨h1, by intro h; cases h⟩
       · next ns hi =>
-        refine ⟨h1, fun _ => ⟨e, rfl, hauth, fun _ => ⟨?_, ?_⟩⟩⟩
-        · have hins := installPkg_install true e.files ns hi
-          exact installed_files_recorded L e.files hcs (install_spec true e.files ns hins).2.1
-        · exact installed_bytes_verified L e.files ns hcs (installPkg_install true e.files ns hi)
+        have hins := installPkg_install true e.files ns hi
+        have hrec := installed_files_recorded L e.files hcs (install_spec true e.files ns hins).2.1
+        split
+        · -- the same data section again: nothing new is laid out
+          exact ⟨h1, fun _ => ⟨e, rfl, hauth, fun _ => ⟨hrec, by intro nd hnd; cases hnd⟩⟩⟩
+        · exact ⟨h1, fun _ => ⟨e, rfl, hauth, fun _ => ⟨hrec, installed_bytes_verified L e.files ns hcs hins⟩⟩⟩
 
-theorem runPkgs_spec (L : Lib) (hx : HexCanonical L) (kind : OpKind) (uc : Bool) (ps : List PkgReq) (s : State)
-    (hinv : StateInv L s) :
-    StateInv L (runPkgs Cfg.repaired L kind uc s ps).2 ∧
-    Pointwise (PkgGood L kind) ps (runPkgs Cfg.repaired L kind uc s ps).1 := by
-  induction ps generalizing s with
+theorem runPkgs_spec (L : Lib) (hx : HexCanonical L) (kind : OpKind) (uc : Bool) (ps : List PkgReq)
+    (prev : List (List Entry)) (s : State) (hinv : StateInv L s) :
+    StateInv L (runPkgsFrom Cfg.repaired L kind uc prev s ps).2 ∧
+    Pointwise (PkgGood L kind) ps (runPkgsFrom Cfg.repaired L kind uc prev s ps).1 := by
+  induction ps generalizing s prev with
   | nil => exact ⟨hinv, Pointwise.nil⟩
   | cons p ps ih =>
-    simp only [runPkgs]
-    obtain ⟨h1, h2⟩ := runPkg_spec L hx kind uc s p hinv
-    obtain ⟨h3, h4⟩ := ih (runPkg Cfg.repaired L kind uc s p).2 h1
+    simp only [runPkgsFrom]
+    obtain ⟨h1, h2⟩ := runPkg_spec L hx kind uc prev s p hinv
+    obtain ⟨h3, h4⟩ := ih _ (runPkg Cfg.repaired L kind uc prev s p).2 h1
     exact ⟨h3, Pointwise.cons h2 h4⟩
 
 /-- T `ops_authentic`: whatever lock/build operations ran before over the same cache root — in earlier processes
@@ -819,7 +824,7 @@ theorem ops_authentic (L : Lib) (hx : HexCanonical L) (ops : List Op) (s : State
   | nil => exact ⟨hinv, Pointwise.nil⟩
   | cons o os ih =>
     simp only [runOps]
-    obtain ⟨h1, h2⟩ := runPkgs_spec L hx o.kind o.useCache o.pkgs (s.enter o) (stateInv_enter L s o hinv)
+    obtain ⟨h1, h2⟩ := runPkgs_spec L hx o.kind o.useCache o.pkgs [] (s.enter o) (stateInv_enter L s o hinv)
     obtain ⟨h3, h4⟩ := ih (runOp Cfg.repaired L s o).2 h1
     exact ⟨h3, Pointwise.cons h2 h4⟩
 
@@ -839,11 +844,13 @@ theorem ops_inv_any (cfg : Cfg) (L : Lib) (ops : List Op) (s : State) (hinv : St
     have hent : StoreInv L (s.enter o).store := by
       unfold State.enter; split <;> exact hinv
     generalize s.enter o = s0 at hent
-    induction o.pkgs generalizing s0 with
+    unfold runPkgs
+    generalize ([] : List (List Entry)) = prev
+    induction o.pkgs generalizing s0 prev with
     | nil => exact hent
     | cons p ps ihp =>
-      simp only [runPkgs]
-      exact ihp _ (runPkg_store cfg L o.kind o.useCache s0 p hent)
+      simp only [runPkgsFrom]
+      exact ihp _ (runPkg_store cfg L o.kind o.useCache prev s0 p hent) _
 
 /-! ### the oracle the driver evaluates (`Spec.pkgVerdict`) says `ok` only when the three relations hold -/
 
